@@ -5,7 +5,7 @@ import os
 from .model import AnalysisError
 from .report import VERIF
 from .callgraph import closure
-from .rules import r1_resolve, r2_none, r3_ctor, r9_purity, r4_predicates, r5_arghandler, r6_dispatch, r7_binary, r8_accessors, r_list, r10_args, r11_symbolic, r16_tables, r15_closed, r14_interp, r18_shared
+from .rules import r1_resolve, r2_none, r3_ctor, r9_purity, r4_predicates, r5_arghandler, r6_dispatch, r7_binary, r8_accessors, r_list, r10_args, r11_symbolic, r16_tables, r15_closed, r14_interp, r18_shared, r19_angles
 
 _anch = None
 
@@ -499,6 +499,9 @@ def c05(run):
     r16_tables.check_expr_fn(run, 'base/transforms2d:xyt2tr', 'xyt2tr is covered by the slot table', 'T') if False else None
     r16_tables._trot2(run)
     r16_tables.check_double_cover(run)
+    r19_angles.check_tr2rpy(run, r16_tables.RPY_WORDS)
+    r19_angles.check_tr2eul(run, [('z', 0), ('y', 1), ('z', 2)])
+    run.floor('R19', 33)
     _scope_rules(run, 'C05')
     run.floor('R12', 8)
     run.floor('R16', 10)
